@@ -23,6 +23,11 @@ type C12Scenario struct {
 	CliHistory [][]int `json:"cli_history,omitempty"`
 	// CliTmpOtherFS: the CLI processes run with $TMPDIR on another file system
 	CliTmpOtherFS bool `json:"cli_tmp_other_fs,omitempty"`
+	// CliEdit[k]: step k does not analyse again: the sources of step k-1 are edited in place (the
+	// files listed in CliStripped[k-1], which were plain classes there, get their controller
+	// annotations) and only `coca api -f -c` runs, on a deps.json that predates the edit
+	CliEdit     []bool  `json:"cli_edit,omitempty"`
+	CliStripped [][]int `json:"cli_stripped,omitempty"`
 }
 
 type C12 struct{}
@@ -63,6 +68,19 @@ func (C12) Generate(t *tape.Tape, tier string) interface{} {
 				sub = []int{0}
 			}
 			sc.CliHistory = append(sc.CliHistory, sub)
+			sc.CliEdit = append(sc.CliEdit, false)
+			sc.CliStripped = append(sc.CliStripped, nil)
+			if k > 0 && t.Bool(1, 2) {
+				// edit step: same sources as the step before, some of which were plain classes there
+				prev := sc.CliHistory[k-1]
+				sc.CliHistory[k] = prev
+				sc.CliEdit[k] = true
+				for _, fi := range prev {
+					if len(p.Files[fi].Apis) > 0 && t.Bool(1, 2) {
+						sc.CliStripped[k-1] = append(sc.CliStripped[k-1], fi)
+					}
+				}
+			}
 		}
 		sc.CliTmpOtherFS = t.Bool(1, 3)
 	}
@@ -297,6 +315,17 @@ func (C12) Run(ctx *sim.RunCtx, data json.RawMessage) (*sim.Outcome, error) {
 		os.MkdirAll(cwd, 0755)
 		for k, sub := range sc.CliHistory {
 			src := fmt.Sprintf("src%d", k)
+			edit := k < len(sc.CliEdit) && sc.CliEdit[k] && k > 0
+			if edit {
+				src = fmt.Sprintf("src%d", k-1) // the same directory, edited in place
+				out.Faults["source-edited-after-analysis"]++
+			}
+			stripped := map[int]bool{}
+			if k < len(sc.CliStripped) {
+				for _, fi := range sc.CliStripped[k] {
+					stripped[fi] = true
+				}
+			}
 			var want []string
 			var wantRows []string
 			for pos, fi := range sub {
@@ -306,7 +335,14 @@ func (C12) Run(ctx *sim.RunCtx, data json.RawMessage) (*sim.Outcome, error) {
 				f := sc.Files[fi]
 				p := filepath.Join(cwd, src, fmt.Sprintf("%02d", pos), filepath.FromSlash(f.Path))
 				os.MkdirAll(filepath.Dir(p), 0755)
-				os.WriteFile(p, []byte(f.Text), 0644)
+				text := f.Text
+				if stripped[fi] {
+					text = stripControllerAnnotations(text)
+				}
+				os.WriteFile(p, []byte(text), 0644)
+				if stripped[fi] {
+					continue // a plain class here: contributes nothing
+				}
 				for _, a := range f.Apis {
 					want = append(want, apiKey(a.Verb, a.Uri, a.Body, a.Pkg, a.Class, a.Method))
 					wantRows = append(wantRows, fmt.Sprintf("%s %s %s.%s.%s", a.Verb, a.Uri, a.Pkg, a.Class, a.Method))
@@ -315,7 +351,11 @@ func (C12) Run(ctx *sim.RunCtx, data json.RawMessage) (*sim.Outcome, error) {
 			hist = append(hist, fmt.Sprintf("cli%d", len(sub)))
 			out.Faults["durable-reports-carried-over"]++
 			ended := ""
-			for _, args := range [][]string{{"analysis", "-p", src}, {"api", "-p", src, "-f", "-c"}} {
+			cmdLines := [][]string{{"analysis", "-p", src}, {"api", "-p", src, "-f", "-c"}}
+			if edit {
+				cmdLines = cmdLines[1:]
+			}
+			for _, args := range cmdLines {
 				res, err := ctx.Run(&sim.Proc{Schedule: sim.Canonical(), Cwd: cwd, TmpOtherFS: sc.CliTmpOtherFS, Ops: []sim.Op{{Op: "cli", Args: map[string]interface{}{"args": args}}}})
 				if err != nil {
 					return nil, err
@@ -385,6 +425,24 @@ func (C12) Run(ctx *sim.RunCtx, data json.RawMessage) (*sim.Outcome, error) {
 	}
 	out.Sample = sample
 	return out, nil
+}
+
+// stripControllerAnnotations turns a generated controller into a plain class: the class-level
+// @RestController / @Controller / @RequestMapping lines (those before the class header) are removed.
+func stripControllerAnnotations(text string) string {
+	lines := strings.Split(text, "\n")
+	var out []string
+	inHeader := true
+	for _, l := range lines {
+		if inHeader && (strings.HasPrefix(l, "public class ") || strings.HasPrefix(l, "public interface ")) {
+			inHeader = false
+		}
+		if inHeader && (l == "@RestController" || l == "@Controller" || strings.HasPrefix(l, "@RequestMapping(")) {
+			continue
+		}
+		out = append(out, l)
+	}
+	return strings.Join(out, "\n")
 }
 
 func diffMultiset(got, want []string) (extra, missing []string) {
